@@ -410,6 +410,7 @@ def execute(case, isolated=True):
     return out
 
 
+_CONFIRMED = set()    # violation signatures this worker has already reproduced from a clean process state
 _RECENT = []          # the cases this worker process ran before (only their model / output: the history of the process)
 
 
@@ -422,7 +423,11 @@ def worker(seed):
         # history explicit (earlier exports become `priors` of the case) so that the replay file is self-contained
         want = {s for s, _ in out["problems"]}
         confirmed = None
-        for depth in (0, 1, 2, 4, 8):
+        if want <= _CONFIRMED:
+            # the same violation classes were already reproduced from a clean state by this worker: do not fork again
+            # (a change that breaks every export would otherwise cost several forks per case)
+            confirmed = (case, dict(out))
+        for depth in ((0, 1, 2, 4, 8) if confirmed is None else ()):
             hist = [{"output": c["env"]["output"], "model": c["model"]} for c in _RECENT[-depth:]] if depth else []
             c2 = dict(case, priors=hist + list(case["priors"]))
             o2 = execute(c2, isolated=True)
@@ -441,6 +446,7 @@ def worker(seed):
             case, o2 = confirmed
             o2.pop("log", None)
             out["problems"] = o2["problems"]
+            _CONFIRMED.update(s for s, _ in o2["problems"])
     _RECENT.append(case)
     del _RECENT[:-8]
     out["sample"] = None
